@@ -417,6 +417,9 @@ func genName(r *vh.Rand, p *profile, hostile bool) string {
 		case 2:
 			if p.nameJunk && (!p.nameSP || r.Bool()) {
 				n = inject(r, n, r.Pick("(", "@", "\x80", "/", "\""))
+				if p.lowerNames && r.Chance(1, 4) {
+					n = ":" + n // an unknown pseudo header name (SPDY keeps it in the header map)
+				}
 			} else if p.nameSP {
 				n = inject(r, n, r.Pick(" ", "\t", "\x01", "\x7f"))
 			}
@@ -703,6 +706,9 @@ func genFrame(r *vh.Rand, kind string) string {
 		if r.Chance(1, 20) {
 			k = strings.ToUpper(k[:len(k)/2]) + k[len(k)/2:]
 		}
+		if r.Chance(1, 8) { // an UNKNOWN pseudo header: plain, or carrying SP / CR LF / a whole field line
+			k = r.Pick(":a", ":foo", ":status", ":a: b\r\nx-injected", ":a b", ":a\r\nx: 1", ":\r\n", ":method2", ":x\x00")
+		}
 		if kind == "sp" && seen[k] {
 			continue
 		}
@@ -837,6 +843,9 @@ func genConn(r *vh.Rand) string {
 		if !pseudoFromDyn(":authority") && !r.Chance(1, 6) {
 			lit(1, ":authority", r.Pick("example.com", "a:8080", "a\r\nEvil: 1", "a b"))
 		}
+		if r.Chance(1, 10) {
+			b = append(b, hpLiteral(r.Intn(3), 0, r.Pick(":a", ":a: b\r\nx-injected", ":status", ":foo bar"), "v")...)
+		}
 		nreg := r.Intn(4)
 		for k := 0; k < nreg; k++ {
 			switch r.Intn(7) {
@@ -965,6 +974,12 @@ func pre(emit func(string), thorough bool) {
 	emit(sp("GET", "/", "a", "x y", "1"))
 	emit(sp("GET", "/", "a", "x", "a\x01b"))
 	emit(sp("GET", "/", "a", "x", "1\x002"))
+	// unknown ':'-prefixed names: the validation of names must cover them too (they stay in the header map)
+	emit(sp("GET", "/", "a", ":a: b\r\nx-injected", "yes"))
+	emit(sp("GET", "/", "a", ":a b", "1"))
+	emit(sp("GET", "/", "a", ":foo", "1"))
+	emit("h2 " + F(":method", "GET", ":path", "/", ":scheme", "https", ":authority", "a", ":a: b\r\nx-injected", "yes") + " 1 _")
+	emit("h2 " + F(":method", "GET", ":path", "/", ":scheme", "https", ":foo", "1") + " 1 _")
 	emit(sp("G(T", "/", "a"))
 	emit(sp("GET", "/", "a", "x(y", "1"))
 	// HTTP/2 connection-level: a refused literal stays in the HPACK dynamic table; referencing it by index later
